@@ -1,5 +1,5 @@
 (* C12 - Size and range limits are exact; accepted values are never altered to fit. *)
-From Ctap Require Import Base Schema Wire Utf8 Typed WellTyped Procs Inst Tables Limits WireP TypedP FramingP SerP RoundTripP ObRequestSide ObEnvRt FnShapes Shapes ObShapeStrings ObShapeFilters LimitsP Deps ObDeps ObShapeRequest.
+From Ctap Require Import Base Schema Wire Utf8 Typed WellTyped Procs Inst Tables Limits WireP TypedP FramingP SerP RoundTripP ObRequestSide ObEnvRt FnShapes Shapes ObShapeStrings ObShapeFilters Within LimitsP Deps ObDeps ObShapeRequest.
 Local Open Scope string_scope.
 Local Open Scope Z_scope.
 
